@@ -43,9 +43,9 @@ def plan(tier):
 
 
 def gen_cases(ctx):
-    per = ctx.scale(260, 12000)
+    per = ctx.scale(260, 60000)
     if ctx.mode == "interp":
-        per = ctx.scale(110, 1500)
+        per = ctx.scale(110, 6000)
     for i in range(per):
         rng = ctx.rng(1, i)
         case = {
